@@ -291,6 +291,25 @@ def infeasible_items(tier):
                 add(f"typed dates {st}..{en} milestone={ms} alap={alap}", {"alap": alap, "resources": R, "tasks": [t, T("b", deps=["m"])]})
     for eff in ("1000000y", "10000y", "20y"):
         add(f"effort {eff}", {"resources": R, "tasks": [{"id": "a", "effort": eff, "alloc": ["r1"]}, T("b", deps=["a"])]})
+    # the same kind of statement written many times in one body (valid projects: they must be scheduled, in bounded work)
+    for n in (2, 3, 18):
+        days = [f"2025-01-{7 + (i % 20):02d}" for i in range(n)]
+        add(f"{n} leaves statements", text='project p "P" 2025-01-06 +6w {\n}\nresource r1 "r1" {\n' + "".join(f"  leaves annual {d}\n" for d in days)
+            + '}\ntask a "a" {\n  effort 20h\n  allocate r1\n}\n')
+        add(f"{n} vacation statements", text='project p "P" 2025-01-06 +6w {\n}\n' + "".join(f"vacation {d}\n" for d in days)
+            + 'resource r1 "r1" {\n}\ntask a "a" {\n  effort 20h\n  allocate r1\n}\n')
+        add(f"{n} global leaves statements", text='project p "P" 2025-01-06 +6w {\n}\n' + "".join(f'leaves holiday "h" {d}\n' for d in days)
+            + 'resource r1 "r1" {\n}\ntask a "a" {\n  effort 20h\n  allocate r1\n}\n')
+        add(f"{n} depends statements", text='project p "P" 2025-01-06 +6w {\n}\nresource r1 "r1" {\n}\ntask a "a" {\n  effort 4h\n  allocate r1\n}\ntask b "b" {\n  effort 4h\n  allocate r1\n'
+            + "  depends a\n" * n + "}\n")
+        add(f"{n} precedes statements", text='project p "P" 2025-01-06 +6w {\n}\nresource r1 "r1" {\n}\ntask a "a" {\n  effort 4h\n  allocate r1\n' + "  precedes b { gapduration 1h }\n" * n
+            + '}\ntask b "b" {\n  effort 4h\n  allocate r1\n  depends a\n}\n')
+        add(f"{n} allocate statements", text='project p "P" 2025-01-06 +6w {\n}\nresource r1 "r1" {\n}\nresource r2 "r2" {\n}\ntask a "a" {\n  effort 4h\n' + "  allocate r1\n" * n + "}\n")
+        add(f"{n} limits blocks", text='project p "P" 2025-01-06 +6w {\n}\nresource r1 "r1" {\n' + "  limits { dailymax 4h }\n" * n + '}\ntask a "a" {\n  effort 20h\n  allocate r1\n'
+            + "  limits { weeklymax 12h }\n" * n + "}\n")
+    for first, second in (("r1", "r2 { alternative r3 }"), ("r1 { alternative r3 }", "r2"), ("r1 { alternative r3 }", "r1 { alternative r3 }"), ("r1 { alternative r2 }", "r2 { alternative r3 }")):
+        add(f"allocate {first} + allocate {second}", text='project p "P" 2025-01-06 +2w {\n}\nresource r1 "r1" {\n}\nresource r2 "r2" {\n}\nresource r3 "r3" {\n}\n'
+            f'task a "a" {{\n  effort 6h\n  allocate {first}\n  allocate {second}\n}}\n')
     add("macro missing args", text="macro two [ effort ${1} allocate ${2} ]\n" + base.replace("effort 90min", "${two}", 1))
     add("macro undefined", text=base.replace("effort 90min", "${nosuch}", 1))
     add("macro unterminated", text="macro bad [ effort 1h \n" + base)
